@@ -308,7 +308,7 @@ CHECKS['C09'] = dict(
     engine='E1/E2/E3 under sanitizers',
     technique='the bounded-exhaustive input, program and history spaces of the other checks re-executed on the real code built with AddressSanitizer + UndefinedBehaviorSanitizer (no recovery) + libstdc++ debug mode (checked iterators and subscripts); plus an exhaustive sweep of the bounds-checked accessors over index values incl. the extremes of size_t',
     level_text='Every case of the quick (thorough: thorough for the cheap ones, plus all two-node expression trees) spaces of C01-C08, C10-C13, C15, C17 runs once more under ASan+UBSan+_GLIBCXX_DEBUG; a sanitizer report, a debug-mode assertion, a signal, a division by zero or an out-of-range solver access is a violation and names the case in flight. Checked accessors (Grid::at, Support::at, absoluteFromRelative, relativeFromAbsolute, intervalIndexFromAbsolute) are swept over every window x every index in {0..n+2, 2^63-1..2^63+1, 2^64-1-k, values that wrap start+index}.',
-    level_note='Trusted: the sanitizer runtimes of g++ 12, libstdc++ debug mode. Only executed paths are checked; MSan is not available (no instrumented libstdc++); reads of default-constructed scalars are seen by the poisoned exact scalar but reported under C19 only, because the archetype cannot tell 'T x;' from the well-defined 'T{}'. Functional mismatches found by these harnesses belong to their own properties and are ignored here (counted in counters).',
+    level_note='Trusted: the sanitizer runtimes of g++ 12, libstdc++ debug mode. Only executed paths are checked; MSan is not available (no instrumented libstdc++); reads of default-constructed scalars are seen by the poisoned exact scalar but reported under C19 only, because the archetype cannot tell a default-initialised T x; from the well-defined value-initialised T{}. Functional mismatches found by these harnesses belong to their own properties and are ignored here (counted in counters).',
     units=c09_units,
     viol_filter=c09_filter,
     deadline=dict(quick=900, thorough=2700),
